@@ -62,6 +62,15 @@ CHECKS["C14"] = (
     "neighbours, in [0,360) for direction variables. interpolate_periodic (data frames / tracks): result congruent to "
     "fp0 + t*d with d the difference wrapped into [-180,180), inside the discontinuity window, NaN or end value "
     "outside. Mixed integer/real queries are decided by z3 with cvc5 as second solver.", "DESIGN.md#c14", "")
+CHECKS["C17"] = (
+    "Packed integers: for ALL integers in the valid ranges (unbounded linear integer arithmetic) time_from_timeint / "
+    "date_from_dateint / datetime_from_time_and_date_integers decode the decimal digit groups selected by magnitude "
+    "(hh/hhmm/hhmmss, yyyymmdd / yymmdd -> 2000+yy), UTC aware. Conversions: to_datetime_utc / to_datetime64 / "
+    "datetime_to_iso_time_string executed over a contract model of datetime/timedelta/datetime64 with symbolic instant "
+    "(integer microseconds) and symbolic UTC offset: aware -> same instant, naive -> read as UTC (never the machine's "
+    "local zone), Z / offset / no designator strings, epoch seconds, datetime64 to whole seconds, None -> None, mixed "
+    "sequences elementwise, ISO round trip keeps microseconds.", "DESIGN.md#c17",
+    "The datetime contract model is trusted; it is cross-checked against CPython/numpy on path witnesses.")
 NA = {}
 
 ALL = [f"C{i:02d}" for i in range(1, 21)]
